@@ -475,6 +475,48 @@ func (c *c18) rest(tier rt.Tier, U []uint64, I []int64, F []float64) {
 			return ""
 		})
 	}
+	// overflow frontiers: for EVERY multiplier b up to a bound, the operands around the largest a with
+	// a*b <= 2^64-1 (both argument orders); for every alphabet operand a, the partners around the largest
+	// b with a+b <= 2^64-1 and around a-b = 0. The fixed alphabet only holds a few such pairs.
+	maxB := uint64(1) << 13
+	if tier == rt.Thorough {
+		maxB = 1 << 18
+	}
+	frontier := 0
+	for b := uint64(1); b <= maxB; b++ {
+		q := uint64(math.MaxUint64) / b
+		for d := int64(-3); d <= 3; d++ {
+			a := q + uint64(d)
+			if (d < 0 && a > q) || (d > 0 && a < q) {
+				continue // wrapped
+			}
+			for _, pr := range [][2]uint64{{a, b}, {b, a}} {
+				x, y := pr[0], pr[1]
+				frontier++
+				c.call("MultCoin", fmt.Sprintf("%d, %d", x, y), func() string {
+					g, err := currency.MultCoin(C(x), C(y))
+					return exactU(g, err, new(big.Int).Mul(bigU(x), bigU(y)))
+				})
+			}
+		}
+	}
+	for _, a := range U {
+		for d := int64(-3); d <= 3; d++ {
+			b := uint64(math.MaxUint64) - a + uint64(d)
+			frontier++
+			c.call("AddCoin", fmt.Sprintf("%d, %d", a, b), func() string {
+				g, err := currency.AddCoin(C(a), C(b))
+				return exactU(g, err, new(big.Int).Add(bigU(a), bigU(b)))
+			})
+			b2 := a + uint64(d)
+			frontier++
+			c.call("MinusCoin", fmt.Sprintf("%d, %d", a, b2), func() string {
+				g, err := currency.MinusCoin(C(a), C(b2))
+				return exactU(g, err, new(big.Int).Sub(bigU(a), bigU(b2)))
+			})
+		}
+	}
+	rep.Set("overflow_frontier_calls", frontier)
 	// full range 0..10^6 (quick) / 0..10^7 (thorough): format then parse is the identity
 	top := uint64(1000000)
 	if tier == rt.Thorough {
